@@ -6,7 +6,7 @@ import numpy as np
 from ..case import Case
 from .. import spec
 from .common import gt, make_cond, cond_spec_params
-from .condprops import cond_decl, prior_decl, joint_layout, rotations
+from .condprops import cond_decl, prior_decl, joint_layout, rotations, make_prior, CTOR_VARIANTS
 
 PROP = "C13"
 
@@ -91,7 +91,7 @@ def mi_case(kind, Dx, Dy, Rc, Rx, semi=(), zeroM=False, timeout=600):
     def fn(**A):
         factor, measure, pdf, conditional = gt()
         c = make_cond(kind, "c_", A, Dy, Dx)
-        px = pdf.GaussianPDF(Sigma=A["Sx"], mu=A["mx"])
+        px = make_prior(A)
         out = {"Hc": c.conditional_entropy(px)}
         out["MI"] = c.mutual_information(px)
         if not zeroM:
@@ -188,8 +188,8 @@ def cases(tier, seed=0):
                     for semi in rotations(kind, 2):
                         out.append(mi_case(kind, Dx, Dy, Rc, Rx, semi=semi, timeout=1800))
     for kind in ("full", "diag", "identity", "identitydiag", "nncontrol"):
-        for var in (("viaL",), ("upd",)):
-            if kind == "nncontrol" and var == ("viaL",):
+        for var in CTOR_VARIANTS:
+            if kind == "nncontrol" and var in (("viaL",), ("viaSL",)):
                 continue
             out.append(mi_case(kind, 1, 1, 1, 1, semi=var))
             if not kind.startswith("identity"):
